@@ -253,14 +253,22 @@ GetHash(res) ==
                             nextB |-> NB2, newR |-> NR, rq |-> rq, itx |-> itx, d |-> NoD])
   /\ Finish(Act("GetHash", h, 0, 0, res))
 
-\* BlockFilterMatches :330 with the reporter's watch list, Progress :338, QuitCheck :351
+\* BlockFilterMatches :330 with the reporter's watch list, Progress :338, QuitCheck :351.
+\* The callback is the one NewChainService wires in (neutrino.go :969): rescan.go
+\* blockFilterMatches over ChainSource.GetCFilter, whose outcome is the environment's choice:
+\*   the block's filter        => match iff a watched script is in the block ("match"/"nomatch")
+\*   a filter with a false positive for the watched scripts (only if something is watched)
+\*   ErrFilterFetchFailed (or any other error) => the scan fails            ("fail")
+\*   headerfs.ErrHashNotFound "block reorged out" => no match, no error, next height ("stale")
 FilterMatch(res) ==
   /\ pc = PC_FILTER
   /\ \/ res = "fail" /\ Fail /\ nfail' = nfail + 1
         /\ Commit(FailAll(ERRA, pq, nextB, rq, {}, NoD))
      \/ res = "nomatch" /\ ~TrueMatch(h, rq) /\ UNCHANGED nfail
         /\ Commit(Enter(h + 1, endH, pq, nextB, rq, itx, NoD))
-     \/ res = "match" /\ (TrueMatch(h, rq) \/ FalsePos) /\ UNCHANGED nfail
+     \/ res = "stale" /\ Fail /\ nfail' = nfail + 1
+        /\ Commit(Enter(h + 1, endH, pq, nextB, rq, itx, NoD))
+     \/ res = "match" /\ (TrueMatch(h, rq) \/ (FalsePos /\ rq # {})) /\ UNCHANGED nfail
         /\ IF quit THEN Commit(FailAll(SHUT, pq, nextB, rq, {}, NoD))
            ELSE Commit([pc |-> PC_BLOCK, h0 |-> 0, h |-> h, endH |-> endH, pq |-> pq,
                         nextB |-> nextB, newR |-> {}, rq |-> rq, itx |-> itx, d |-> NoD])
@@ -311,7 +319,7 @@ Next ==
   \/ Wake
   \/ \E res \in {"ok", "fail"} : BatchStart(res)
   \/ \E res \in {"ok", "fail"} : GetHash(res)
-  \/ \E res \in {"match", "nomatch", "fail"} : FilterMatch(res)
+  \/ \E res \in {"match", "nomatch", "fail", "stale"} : FilterMatch(res)
   \/ \E res \in {"ok", "fail"} : GetBlock(res)
   \/ \E res \in {"ok", "fail"} : TailCheck(res)
 
@@ -334,6 +342,6 @@ NoViolation == viol = {}
 
 State == [cid |-> cid, best |-> best, reqs |-> reqs, ans |-> ans, pq |-> pq, nextB |-> nextB,
           pc |-> pc, h0 |-> h0, h |-> h, endH |-> endH, newR |-> newR, rq |-> rq, itx |-> itx,
-          quit |-> quit, nfail |-> nfail, due |-> abs.due, over |-> abs.over]
+          quit |-> quit, nfail |-> nfail, due |-> abs.due, over |-> abs.over, stale |-> abs.stale]
 View == <<cid, best, reqs, ans, pq, nextB, pc, h0, h, endH, newR, rq, itx, quit, nfail, abs>>
 =============================================================================
